@@ -53,7 +53,8 @@ def over_cap_pairs():
         if first == 4 << 20:
             sizes = [4 << 20, 4 << 20, 4 << 20, 32768, 32768, 1 << 20, 77]
         total = sum(sizes)
-        ops = ["sh:Content-Type:text%2Fplain"] + (["sh:Content-Length:%d" % total] if with_cl else []) + ["wh:200"]
+        # (statuses other than 200 too: a large partial answer, a large error page — the status travels with the body)
+        ops = ["sh:Content-Type:text%2Fplain"] + (["sh:Content-Length:%d" % total] if with_cl else []) + ["wh:%d" % [206, 404, 200][k]]
         seed = 5 + k
         for n in sizes:
             ops.append("w:%d:%d" % (n, seed))
@@ -159,6 +160,14 @@ def front_episode(rng, cut=False):
     return ep
 
 
+def overlap_episode(cap):
+    """one plugin instance in the real front end: an answer beyond the buffering cap first, then waves of clients served at
+    the same time, each with a body of its own — every client decodes exactly its own bytes"""
+    return ["px new round_robin 00 - g",
+            "px x via GET /p Accept-Encoding=gzip 0 cl sh:Content-Type:text%%2Fplain;wh:200;w:%d:3" % (cap + 1000),
+            "px conc 16 200000", "px conc 32 60000", "px conc 16 200000", "px close"]
+
+
 def front_cut_oracle(ep, outs):
     """a backend that dies mid-body, seen through the buffering plugin: the client gets no answer at all or one that
     breaks off — never a complete, well-formed answer made of part of the body"""
@@ -228,6 +237,10 @@ def check(ctx):
     df = C.Differential(ctx, fbin, timeout=600, project=c01.project)
     fronts = [front_episode(ctx.rng) for _ in range(60 if ctx.thorough() else 12)]
     df.check(fronts, oracle=front_oracle, label="gzip-front")
+    def overlap_oracle(ep, outs):
+        return ["clients served at the same time by one gzip plugin instance do not each get their own body: %s -> %s" % (l, o)
+                for l, o in zip(C.op_lines(ep), outs) if l.startswith("px conc") and o != "conc ok %s" % l.split()[2]]
+    C.Differential(ctx, fbin, timeout=600, confirm=1).check_oracle_only([overlap_episode(CAP)] * (3 if ctx.thorough() else 1), overlap_oracle, "gzip-overlap")
     cuts = [front_episode(ctx.rng, cut=True) for _ in range(30 if ctx.thorough() else 6)]
     df.check_oracle_only(cuts, front_cut_oracle, "gzip-front-cut")
     ctx.cov["front_end_episodes"] = len(fronts)
